@@ -64,7 +64,7 @@ fn part_stm(ctx: &Ctx, rep: &mut Report) {
     let sizes: Vec<usize> = (1..=n_single).rev().collect();
     merge_rev(rep, par_map(&sizes, threads, |_, &n| stm::cross_commitment_sweep(n)));
     // designed forgeries: claims anywhere in the extended position range with the forger's best path
-    let (forge_n, claims_small, claims_mid, brute_n) = ctx.tier.pick((12usize, 3usize, 2usize, 3usize), (16, 4, 3, 5));
+    let (forge_n, claims_small, claims_mid, brute_n) = ctx.tier.pick((12usize, 3usize, 2usize, 3usize), (16, 3, 3, 5));
     let claims_for = |n: usize| if n <= 4 { claims_small } else if n <= 8 { claims_mid } else { 2 };
     let mut jobs: Vec<(usize, bool, usize)> = vec![];
     for node_like in [true, false] {
@@ -84,7 +84,7 @@ fn part_stm(ctx: &Ctx, rep: &mut Report) {
     merge_rev(rep, par_map(&jobs, threads, |_, &(n, index)| stm::brute_force_single_claim(n, index)));
     // beyond the exhaustive bound: fixed larger sizes with a fixed selection of index subsets
     let large = large_sizes(ctx);
-    let mutate_up_to = ctx.tier.pick(40usize, 129usize);
+    let mutate_up_to = ctx.tier.pick(40usize, 65usize);
     merge_rev(rep, par_map(&large, threads, |_, &n| stm::large_size_sweep(n, n <= mutate_up_to)));
     rep.extra("stm_larger_sizes_with_selected_subsets", json!({"sizes": large, "single_mutations_of_one_and_two_leaf_proofs_up_to_n": mutate_up_to}));
     rep.extra(
@@ -199,7 +199,8 @@ fn part_map(ctx: &Ctx, rep: &mut Report) {
         st.bottom_items(false, &mut all);
         if all.len() <= mut_total && !items.is_empty() {
             for mask in (1u32..(1u32 << items.len())).rev() {
-                if all.len() <= pair_total {
+                // pairs: the small structures; those with a root-only range only up to two items
+                if all.len() <= pair_total && (items.len() == all.len() || all.len() <= 2) {
                     for c in (0..4 * CHUNKS).rev() {
                         jobs.push((si, mask, 2, c, 4 * CHUNKS));
                     }
